@@ -17,6 +17,10 @@ def fixed_bodies():
           ("mn", "DD", [A.ident("start")]), ("label", "fwd"), ("mn", "CMP", [A.ident("AL"), A.num(0)]), ("mn", "JE", [A.ident("start")]),
           ("mn", "CALL", [A.ident("start")]), ("mn", "MOV", [A.ident("SI"), A.ident("fwd")]), ("mn", "DB", [A.num(1), A.num(2)]), ("mn", "JMP", [A.ident("start")])]
     out.append(b1)
+    # relative forms beyond 32 KiB (66h-prefixed rel32 in 16-bit mode): their displacement must not see the origin either
+    for br in ("CALL", "JMP", "JNZ"):
+        out.append([("label", "target"), ("op", "RET"), ("mn", "MOV", [A.ident("BX"), A.ident("target")]), ("mn", "RESB", [A.num(40000)]), ("label", "caller"),
+                    ("mn", br, [A.ident("target")]), ("mn", "DW", [A.ident("target"), A.ident("caller")])])
     out.append([("mn", "DB", [A.num(9)]), ("label", "a"), ("mn", "DW", [A.ident("a")]), ("label", "b"), ("mn", "DD", [A.ident("b"), A.ident("a"), A.ident("$")]), ("mn", "JNZ", [A.ident("a")])])
     return out
 
